@@ -17,6 +17,7 @@ import (
 	"path/filepath"
 	"sort"
 	"strconv"
+	"strings"
 
 	"golang.org/x/tools/go/ast/astutil"
 	"golang.org/x/tools/go/packages"
@@ -46,13 +47,14 @@ var redirects = map[string]map[string]string{
 }
 
 type rw struct {
-	fset   *token.FileSet
-	info   *types.Info
-	pkg    *types.Package
-	n      int
-	stats  map[string]int
-	probes *[]string
-	world  bool
+	fset       *token.FileSet
+	info       *types.Info
+	pkg        *types.Package
+	n          int
+	stats      map[string]int
+	probes     *[]string
+	world      bool
+	noRegister bool // pointer registration is only needed where pointers are map keys (the root package)
 }
 
 func (r *rw) siteStr(p token.Pos) string {
@@ -155,7 +157,7 @@ func (r *rw) redirect(n *ast.SelectorExpr) ast.Expr {
 }
 
 func (r *rw) localStruct(t types.Type) bool {
-	if t == nil {
+	if t == nil || r.noRegister {
 		return false
 	}
 	nt, ok := t.(*types.Named)
@@ -698,25 +700,44 @@ func Run(repo, outDir string) (res *Result, err error) {
 		BuildFlags: []string{"-tags=verif"},
 		Env:        append(os.Environ(), "GOFLAGS=-mod=mod", "GOPROXY=off", "GOSUMDB=off"),
 	}
-	pkgs, err := packages.Load(cfg, ".")
+	// the root package (the concurrent half) and the hand-written packages under pkg/: the
+	// latter are sequential as shipped, but a change may add synchronisation to them
+	pkgs, err := packages.Load(cfg, ".", "./pkg/timednetconn", "./pkg/frame", "./pkg/streamwriter", "./pkg/message",
+		"./pkg/dialect", "./pkg/tlog", "./pkg/x25")
 	if err != nil {
 		return nil, err
 	}
-	if len(pkgs) != 1 {
-		return nil, fmt.Errorf("expected one package, got %d", len(pkgs))
-	}
-	p := pkgs[0]
-	if len(p.Errors) > 0 {
-		return nil, fmt.Errorf("package does not type-check: %v", p.Errors[0])
+	if len(pkgs) == 0 {
+		return nil, fmt.Errorf("no package loaded")
 	}
 	overlay := map[string]string{}
 	if err := os.MkdirAll(outDir, 0o755); err != nil {
 		return nil, err
 	}
 	res = &Result{Stats: map[string]int{}}
+	for _, p := range pkgs {
+		if len(p.Errors) > 0 {
+			return nil, fmt.Errorf("package %s does not type-check: %v", p.PkgPath, p.Errors[0])
+		}
+		if err := instrumentPackage(p, repo, outDir, overlay, res); err != nil {
+			return nil, err
+		}
+	}
+	js, _ := json.MarshalIndent(map[string]any{"Replace": overlay}, "", " ")
+	res.Overlay = filepath.Join(outDir, "overlay.json")
+	if err := os.WriteFile(res.Overlay, js, 0o644); err != nil {
+		return nil, err
+	}
+	sort.Strings(res.Probes)
+	return res, nil
+}
+
+func instrumentPackage(p *packages.Package, repo, outDir string, overlay map[string]string, res *Result) error {
+	root := p.PkgPath == "github.com/bluenviron/gomavlib/v3"
 	for i, f := range p.Syntax {
 		path := p.CompiledGoFiles[i]
-		r := &rw{fset: p.Fset, info: p.TypesInfo, pkg: p.Types, stats: map[string]int{}, probes: &res.Probes}
+		var fileProbes []string
+		r := &rw{fset: p.Fset, info: p.TypesInfo, pkg: p.Types, stats: map[string]int{}, probes: &fileProbes, noRegister: !root}
 		f.Comments = nil // go/printer would misplace them after rewriting
 		for _, d := range f.Decls {
 			if fd, ok := d.(*ast.FuncDecl); ok {
@@ -747,13 +768,16 @@ func Run(repo, outDir string) (res *Result, err error) {
 			}
 		}
 		used := 0
-		for k, v := range r.stats {
-			res.Stats[k] += v
+		for _, v := range r.stats {
 			used += v
 		}
 		if used == 0 && !r.world {
 			continue
 		}
+		for k, v := range r.stats {
+			res.Stats[k] += v
+		}
+		res.Probes = append(res.Probes, fileProbes...)
 		astutil.AddImport(p.Fset, f, dsimPath)
 		if r.world {
 			astutil.AddImport(p.Fset, f, worldPath)
@@ -768,22 +792,19 @@ func Run(repo, outDir string) (res *Result, err error) {
 		}
 		var buf bytes.Buffer
 		if err := format.Node(&buf, p.Fset, f); err != nil {
-			return nil, fmt.Errorf("%s: %v", path, err)
+			return fmt.Errorf("%s: %v", path, err)
 		}
 		src := buf.Bytes()
-		// keep build constraints of the original file
-		dst := filepath.Join(outDir, filepath.Base(path))
+		rel, err := filepath.Rel(repo, path)
+		if err != nil {
+			rel = filepath.Base(path)
+		}
+		dst := filepath.Join(outDir, strings.ReplaceAll(rel, string(filepath.Separator), "__"))
 		if err := os.WriteFile(dst, src, 0o644); err != nil {
-			return nil, err
+			return err
 		}
 		overlay[path] = dst
 		res.Files++
 	}
-	js, _ := json.MarshalIndent(map[string]any{"Replace": overlay}, "", " ")
-	res.Overlay = filepath.Join(outDir, "overlay.json")
-	if err := os.WriteFile(res.Overlay, js, 0o644); err != nil {
-		return nil, err
-	}
-	sort.Strings(res.Probes)
-	return res, nil
+	return nil
 }
